@@ -155,6 +155,12 @@ def check_history(case, ctx):
                 return
         log.append((q["kind"], lat, lon, round(h, 1), cur_date))
         el = elements(w)
+        acc = call(lambda: (dict(w.magnetic_elements), np.array(w.geodetic_vector, float)))
+        if ctx.returned(acc, clause="no-exception[magnetic_elements / geodetic_vector]", route=route):
+            md, gv = acc.value
+            ctx.ok("magnetic_elements (read after every query) holds the values of the current query", all(md.get(k) == getattr(w, k) for k in ELEMS),
+                   {"query_index": j, "dict": {k: md.get(k) for k in ("X", "Y", "Z")}, "attributes": {k: el[k] for k in ("X", "Y", "Z")}}, route=route)
+            ctx.ok("geodetic_vector = (X, Y, Z) of the current query", bool(np.array_equal(gv, np.array([w.X, w.Y, w.Z], float))), route=route)
         if not judge_elements(ctx, el, lat, lon):
             continue
         exp = expected_xyz(lat, lon, h, cur_date, frame)
